@@ -43,6 +43,7 @@ type Ctx struct {
 	violations  int
 	knownHits   map[string]bool
 	known       map[string]string
+	replayDir   string // $VERIF_REPLAYS as it was when the run started (a harness may clear the environment later)
 	extra       map[string]any
 	assumptions []string
 	rule        string
@@ -67,7 +68,7 @@ func Pick[T any](c *Ctx, q, t T) T {
 func Run(t *testing.T, id, level string, body func(c *Ctx)) {
 	c := &Ctx{ID: id, Level: level, T: t, start: time.Now(),
 		classes: map[string]int64{}, violKeys: map[string]bool{}, knownHits: map[string]bool{},
-		known: map[string]string{}, extra: map[string]any{}, maxSamples: 8, exhaustive: true}
+		known: map[string]string{}, extra: map[string]any{}, maxSamples: 8, exhaustive: true, replayDir: os.Getenv("VERIF_REPLAYS")}
 	c.Tier = os.Getenv("VERIF_TIER")
 	if c.Tier != "thorough" {
 		c.Tier = "quick"
@@ -268,7 +269,7 @@ func (c *Ctx) Violate(key, msg string, replay any) {
 	if c.violations > 25 {
 		return
 	}
-	dir := os.Getenv("VERIF_REPLAYS")
+	dir := c.replayDir
 	if dir == "" {
 		dir = "/verif/replays"
 	}
